@@ -98,6 +98,7 @@ sp_ctrsv(char *uplo, char *trans, char *diag, SuperMatrix *L,
     complex temp;
     complex alpha = {1.0, 0.0}, beta = {1.0, 0.0};
     complex comp_zero = {0.0, 0.0};
+    complex comp_temp;
     register int_t fsupc, luptr, istart, irow, k, iptr, jcol, nsuper;
     int          nsupr, nsupc, nrow, i;
     complex *work;
@@ -149,8 +150,8 @@ sp_ctrsv(char *uplo, char *trans, char *diag, SuperMatrix *L,
 		    for (iptr=istart+1; iptr < L_SUB_END(fsupc); ++iptr) {
 			irow = L_SUB(iptr);
 			++luptr;
-			cc_mult(&comp_zero, &x[fsupc], &Lval[luptr]);
-			c_sub(&x[irow], &x[irow], &comp_zero);
+			cc_mult(&comp_temp, &x[fsupc], &Lval[luptr]);
+			c_sub(&x[irow], &x[irow], &comp_temp);
 		    }
 		} else {
 #ifdef USE_VENDOR_BLAS
@@ -206,8 +207,8 @@ sp_ctrsv(char *uplo, char *trans, char *diag, SuperMatrix *L,
 		    c_div(&x[fsupc], &x[fsupc], &Lval[luptr]);
 		    for (i = U_NZ_START(fsupc); i < U_NZ_END(fsupc); ++i) {
 			irow = U_SUB(i);
-			cc_mult(&comp_zero, &x[fsupc], &Uval[i]);
-			c_sub(&x[irow], &x[irow], &comp_zero);
+			cc_mult(&comp_temp, &x[fsupc], &Uval[i]);
+			c_sub(&x[irow], &x[irow], &comp_temp);
 		    }
 		} else {
 #ifdef USE_VENDOR_BLAS
@@ -230,8 +231,8 @@ sp_ctrsv(char *uplo, char *trans, char *diag, SuperMatrix *L,
 		        solve_ops += 8*(U_NZ_END(jcol) - U_NZ_START(jcol));
 		    	for (i = U_NZ_START(jcol); i < U_NZ_END(jcol); i++) {
 			    irow = U_SUB(i);
-			cc_mult(&comp_zero, &x[jcol], &Uval[i]);
-			c_sub(&x[irow], &x[irow], &comp_zero);
+			cc_mult(&comp_temp, &x[jcol], &Uval[i]);
+			c_sub(&x[irow], &x[irow], &comp_temp);
 		    	}
                     }
 		}
@@ -258,8 +259,8 @@ sp_ctrsv(char *uplo, char *trans, char *diag, SuperMatrix *L,
 		    for (i = L_NZ_START(jcol) + nsupc; 
 				i < L_NZ_END(jcol); i++) {
 			irow = L_SUB(iptr);
-			cc_mult(&comp_zero, &x[irow], &Lval[i]);
-		    	c_sub(&x[jcol], &x[jcol], &comp_zero);
+			cc_mult(&comp_temp, &x[irow], &Lval[i]);
+		    	c_sub(&x[jcol], &x[jcol], &comp_temp);
 			iptr++;
 		    }
 		}
@@ -292,8 +293,8 @@ sp_ctrsv(char *uplo, char *trans, char *diag, SuperMatrix *L,
 		    solve_ops += 8*(U_NZ_START(jcol+1) - U_NZ_START(jcol));
                     for (i = U_NZ_START(jcol); i < U_NZ_END(jcol); i++) {
 			irow = U_SUB(i);
-			cc_mult(&comp_zero, &x[irow], &Uval[i]);
-		    	c_sub(&x[jcol], &x[jcol], &comp_zero);
+			cc_mult(&comp_temp, &x[irow], &Uval[i]);
+		    	c_sub(&x[jcol], &x[jcol], &comp_temp);
 		    }
 		}
 
@@ -337,8 +338,8 @@ sp_ctrsv(char *uplo, char *trans, char *diag, SuperMatrix *L,
 				i < L_NZ_END(jcol); i++) {
 			irow = L_SUB(iptr);
                         cc_conj(&temp, &Lval[i]);
-			cc_mult(&comp_zero, &x[irow], &temp);
-		    	c_sub(&x[jcol], &x[jcol], &comp_zero);
+			cc_mult(&comp_temp, &x[irow], &temp);
+		    	c_sub(&x[jcol], &x[jcol], &comp_temp);
 			iptr++;
 		    }
  		}
@@ -372,8 +373,8 @@ sp_ctrsv(char *uplo, char *trans, char *diag, SuperMatrix *L,
 		    for (i = U_NZ_START(jcol); i < U_NZ_END(jcol); i++) {
 			irow = U_SUB(i);
                         cc_conj(&temp, &Uval[i]);
-			cc_mult(&comp_zero, &x[irow], &temp);
-		    	c_sub(&x[jcol], &x[jcol], &comp_zero);
+			cc_mult(&comp_temp, &x[irow], &temp);
+		    	c_sub(&x[jcol], &x[jcol], &comp_temp);
 		    }
 		}
 
